@@ -185,22 +185,34 @@ def static_contributions(prog: Program, ci: ClassInfo, method_names: tuple[str, 
         # local accumulators (children = [...]; children.append(...); return children) are not contributions themselves
         delegated_locals: set[str] = {t.id for n_ in ast.walk(m.node) if isinstance(n_, ast.Assign) for t in n_.targets if isinstance(t, ast.Name)}
 
-        def classify(e: ast.AST, m: FunctionInfo = m, al: dict = al) -> list[tuple[str, str]]:  # noqa: B006
+        def scoped(al_: dict, binders: list[tuple[ast.AST, ast.AST]]) -> dict:
+            """Aliases with every loop / comprehension variable re-bound to the iterable of the loop that is in force here (the
+            function-wide alias map is a union over all loops that reuse the name: crediting `for f in self.tail_filters: …f.children()`
+            to self.filters as well would hide a dropped contribution)."""
+            out_al = dict(al_)
+            for target, it in binders:
+                roots = _root_attrs(it, out_al, strict=True)
+                for t in ast.walk(target):
+                    if isinstance(t, ast.Name):
+                        out_al[t.id] = set(roots)
+            return out_al
+
+        def classify(e: ast.AST, al: dict, m: FunctionInfo = m) -> list[tuple[str, str]]:
             """(attr, kind) pairs for an expression whose value is contributed as element(s)."""
             if isinstance(e, ast.Await):
-                return classify(e.value)
+                return classify(e.value, al)
             if isinstance(e, ast.Starred):
-                return classify(e.value)
+                return classify(e.value, al)
             if isinstance(e, (ast.GeneratorExp, ast.ListComp)):
-                return classify(e.elt)
+                return classify(e.elt, scoped(al, [(g.target, g.iter) for g in e.generators]))
             if isinstance(e, ast.Call) and isinstance(e.func, ast.Attribute) and e.func.attr in ("children", "expressions", "children_async"):
                 return [(a, DELEGATED) for a in sorted(_root_attrs(e.func.value, al, strict=True))]
             if isinstance(e, ast.Call) and isinstance(e.func, ast.Attribute) and e.func.attr in ("values", "items", "keys"):
-                return classify(e.func.value)
+                return classify(e.func.value, al)
             if isinstance(e, ast.Call) and isinstance(e.func, ast.Name) and e.func.id in ("list", "tuple", "iter", "chain", "reversed"):
                 out_: list[tuple[str, str]] = []
                 for a_ in e.args:
-                    out_ += classify(a_)
+                    out_ += classify(a_, al)
                 return out_
             return [(a, ELEMENT) for a in sorted(_root_attrs(e, al, strict=True))]
 
@@ -214,10 +226,12 @@ def static_contributions(prog: Program, ci: ClassInfo, method_names: tuple[str, 
                 return
             else:
                 items = [e]
+            loops = [a for a in m.module.ancestors(where) if isinstance(a, (ast.For, ast.AsyncFor))]  # noqa: B023
+            here = scoped(al, [(a.target, a.iter) for a in reversed(loops)])  # noqa: B023
             for it in items:
                 if isinstance(it, ast.Name) and it.id in delegated_locals:
                     continue
-                for r in classify(it):
+                for r in classify(it, here):
                     cond = ""
                     for anc in m.module.ancestors(where):  # noqa: B023
                         if isinstance(anc, ast.If):
